@@ -61,8 +61,8 @@ ASSUMPTIONS = ['"exactly the commands without committed descendant": the inducti
 EXPLANATION = 'Sorted/duplicate-free head set proved unbounded by Verus on the extracted HeadSet::push; tips bookkeeping of Transaction by Kani trace contracts over havoc storage.'
 MANIFEST = {
     'text': 'Proof of the mechanisms: HeadSet::push keeps the committed head set sorted by command id and duplicate-free for sets of any size (Verus, extracted text), '
-            'and the result is independent of push order (lemma); Transaction::{flush, get_perspective, add_single} keep the tip set exactly as the frontier step demands (Verus, extracted text, any size) and never leave an unwritable perspective behind. '
-            'The step to "exactly the frontier of the committed graph" is an induction over histories and is not machine-checked.',
-    'note': 'Mechanism contracts only (PROVED-LOCAL). Trusted: derive(Ord) axioms (cross-checked by Kani), std binary_search, havoc storage. BTreeMap removal paths uncovered.',
+            'and the result is independent of push order (lemma); Transaction::{flush, get_perspective, add_single, add_merge} keep the tip set exactly as the frontier step demands, commit writes exactly the tips as the new head set (Verus, extracted text, any size), and the frontier step itself is a machine-checked lemma over those contracts. '
+            'The induction over the ingest history that composes these steps is stated, not mechanised.',
+    'note': 'Mechanism contracts only (PROVED-LOCAL). Trusted: derive(Ord) axioms (cross-checked by Kani), std binary_search, havoc / abstract storage, braid abstract in add_merge and commit.',
     'technique': 'Verus on extracted HeadSet::push and Transaction tip bookkeeping + Kani contract harnesses / trace contracts over havoc traits',
 }
